@@ -59,9 +59,21 @@ func run(c *xs.Ctx, r *xs.Result) {
 		replay(c, r, b)
 		return
 	}
+	// the last priceShards workers do the price part (one spork regime each: process globals) and nothing else; the other
+	// parts are dealt round-robin to the workers before them
+	base := c.NShards
+	if c.NShards > priceShards {
+		base = c.NShards - priceShards
+		if c.Shard >= base {
+			pricePart(c, r, c.Shard-base, nil)
+			return
+		}
+	} else {
+		r.Note("price part not run: it needs %d worker processes of its own", priceShards)
+	}
 	item := 0
 	next := func() bool {
-		mine := c.Mine(item)
+		mine := base <= 1 || item%base == c.Shard
 		item++
 		return mine
 	}
@@ -245,6 +257,12 @@ func replay(c *xs.Ctx, r *xs.Result, b bounds) {
 			x.evalOne(e, st, rep.Path, *rep.Cand, nn, rep.Heavy)
 		}
 		e.n.Destroy()
+	case "price":
+		var rep priceReplay
+		if err := json.Unmarshal(c.Replay, &rep); err != nil {
+			panic(err)
+		}
+		pricePart(c, r, rep.Regime, &rep)
 	case "stale":
 		var rep staleReplay
 		if err := json.Unmarshal(c.Replay, &rep); err != nil {
@@ -271,7 +289,7 @@ func init() {
 		ID:    "C12",
 		Level: "exploration",
 		Shards: func(tier string) int {
-			return 16
+			return 16 + priceShards
 		},
 		Budget: func(tier string) time.Duration {
 			if tier == "thorough" {
